@@ -253,7 +253,21 @@ pub fn encode(input: &[u8], sc: &Script) -> Result<(Vec<u8>, Forms), String> {
                     }
                 } else {
                     // rule d): one symbol character left and the rest is one ASCII codeword
-                    let rest_one = next_is_final_ascii && ascii_len(rest, sc.pair_digits) == 1 && (rest.len() == 1 || sc.implicit_pair);
+                    // rule d) literally: "one symbol character remains and one C40 value (data character) remains"
+                    let single_value = rest.len() == 1 && rest[0] < 128 && {
+                        let mut v = Vec::new();
+                        if *mode == Mode::X12 {
+                            if x12_value(rest[0]).is_some() {
+                                v.push(0);
+                            } else {
+                                v.extend_from_slice(&[0, 0]);
+                            }
+                        } else {
+                            c40_values(rest[0], *mode == Mode::Text, &mut v);
+                        }
+                        v.len() == 1
+                    };
+                    let rest_one = next_is_final_ascii && ascii_len(rest, sc.pair_digits) == 1 && (single_value || (sc.implicit_pair && rest.len() == 2));
                     if sc.implicit_unlatch && space == 1 && rest_one {
                         forms.tags.push("c40_rule_d_implicit_unlatch");
                     } else {
